@@ -129,9 +129,12 @@ fn run_child(check: &dyn Check, a: &Args, shard: usize, nshards: usize, dir: &Pa
     let mut stopped_early = false;
     // address-space limit: an allocation driven by an attacker-controlled count aborts this
     // child; the parent attributes the abort to the case recorded in the .cur file
-    unsafe {
-        let lim = libc::rlimit { rlim_cur: 6 << 30, rlim_max: 6 << 30 };
-        libc::setrlimit(libc::RLIMIT_AS, &lim);
+    // (not under Miri or a sanitizer: Miri cannot cross FFI, ASan reserves terabytes of shadow)
+    if !cfg!(miri) && a.mode.is_empty() {
+        unsafe {
+            let lim = libc::rlimit { rlim_cur: 6 << 30, rlim_max: 6 << 30 };
+            libc::setrlimit(libc::RLIMIT_AS, &lim);
+        }
     }
     // watchdog for polls that never return (a busy loop inside a future of the subject)
     {
